@@ -120,12 +120,7 @@ package engine
 //@   checks only idx inv-entry inv-keep pre@call
 //@   trusted-frame
 
-//@ func (*Stream).Close
-//@   property C05
-//@   requires s != nil
-//@   safety only idx nil
-//@   checks only idx nil inv-entry inv-keep pre@call
-//@   trusted-frame
+//@ -- (*Stream).Close: its contract is in verif_contracts_c19out.go
 
 //@ func (*Stream).Name
 //@   property C05
@@ -134,28 +129,11 @@ package engine
 //@   checks only idx nil inv-entry inv-keep pre@call
 //@   trusted-frame
 
-//@ func (*Stream).Seek
-//@   property C05
-//@   requires s != nil
-//@   safety only idx nil
-//@   checks only idx nil inv-entry inv-keep pre@call
-//@   trusted-frame
+//@ -- (*Stream).Seek: its contract is in verif_contracts_c19out.go
 
-//@ func (*Stream).WriteByte
-//@   property C05
-//@   requires s != nil
-//@   requires[an-output-stream-has-a-sink] (s.mode == ioModeWrite || s.mode == ioModeAppend) ==> s.sink != nil
-//@   safety only idx nil
-//@   checks only idx nil inv-entry inv-keep pre@call
-//@   trusted-frame
+//@ -- (*Stream).WriteByte: its contract is in verif_contracts_c19out.go
 
-//@ func (*Stream).WriteRune
-//@   property C05
-//@   requires s != nil
-//@   requires[an-output-stream-has-a-sink] (s.mode == ioModeWrite || s.mode == ioModeAppend) ==> s.sink != nil
-//@   safety only idx nil
-//@   checks only idx nil inv-entry inv-keep pre@call
-//@   trusted-frame
+//@ -- (*Stream).WriteRune: its contract is in verif_contracts_c19out.go
 
 //@ func NumberChars
 //@   property C05
